@@ -17,7 +17,7 @@ use std::time::{Duration, Instant};
 
 use jsonrpsee::core::BoxError;
 use jsonrpsee::server::{
-	ConnectionGuard, HttpRequest, HttpResponse, PingConfig, RpcModule, Server, ServerConfig, ServerHandle, SubscriptionMessage,
+	ConnectionGuard, ConnectionState, HttpRequest, HttpResponse, PingConfig, RpcModule, Server, ServerConfig, ServerHandle, SubscriptionMessage,
 	serve_with_graceful_shutdown, stop_channel,
 };
 use jsonrpsee::server::middleware::rpc::RpcServiceBuilder;
@@ -59,6 +59,9 @@ pub struct Shared {
 	/// identifies THIS server instance (`whoami` method): other processes on the machine bind
 	/// loopback ports too, and a port freed by a stopped server can be taken over at once
 	pub nonce: u64,
+	/// low-level assemblies: the guard is made by the harness ("user code") and is NOT put into the
+	/// request extensions by anybody; handlers read this clone instead
+	pub own_guard: Mutex<Option<ConnectionGuard>>,
 }
 
 impl Shared {
@@ -70,7 +73,9 @@ impl Shared {
 	}
 	/// let the gated handler `tag` return (also if it has not started yet)
 	pub fn release(&self, tag: u64) {
-		match self.gates.lock().unwrap().remove(&tag) {
+		// (`gates` is held across the whole decision: handlers may run on other threads)
+		let mut gates = self.gates.lock().unwrap();
+		match gates.remove(&tag) {
 			Some(tx) => {
 				let _ = tx.send(());
 			}
@@ -105,11 +110,15 @@ fn first_u64(params: &jsonrpsee::types::Params<'_>) -> u64 {
 	params.sequence().next::<u64>().unwrap_or(0)
 }
 
+fn guard_of(shared: &Shared, ext: &Extensions) -> Option<ConnectionGuard> {
+	ext.get::<ConnectionGuard>().cloned().or_else(|| shared.own_guard.lock().unwrap().clone())
+}
+
 /// The methods of the test server.
 pub fn module(shared: Arc<Shared>) -> RpcModule<Arc<Shared>> {
 	let mut m = RpcModule::new(shared);
 	m.register_method("guard", |_, ctx, ext: &Extensions| {
-		let g = ext.get::<ConnectionGuard>().cloned();
+		let g = guard_of(ctx, ext);
 		let a = g.as_ref().map(|g| g.available_connections() as u64);
 		if let Some(g) = g {
 			ctx.emit(Ev::Guard(g));
@@ -118,19 +127,19 @@ pub fn module(shared: Arc<Shared>) -> RpcModule<Arc<Shared>> {
 	})
 	.unwrap();
 	m.register_method("whoami", |_, ctx, _| ctx.nonce).unwrap();
-	m.register_method("avail", |_, _, ext: &Extensions| ext.get::<ConnectionGuard>().map(|g| g.available_connections() as u64))
-		.unwrap();
+	m.register_method("avail", |_, ctx, ext: &Extensions| guard_of(ctx, ext).map(|g| g.available_connections() as u64)).unwrap();
 	m.register_async_method("hold", |params, ctx, ext| async move {
 		let tag = first_u64(&params);
 		let shared: Arc<Shared> = (*ctx).clone();
-		let avail = ext.get::<ConnectionGuard>().map(|g| g.available_connections());
+		let avail = guard_of(&shared, &ext).map(|g| g.available_connections());
 		let mut end = EndGuard { shared: shared.clone(), tag, done: false };
 		let rx = {
+			let mut gates = shared.gates.lock().unwrap();
 			if shared.pre_released.lock().unwrap().remove(&tag) {
 				None
 			} else {
 				let (tx, rx) = oneshot::channel();
-				shared.gates.lock().unwrap().insert(tag, tx);
+				gates.insert(tag, tx);
 				Some(rx)
 			}
 		};
@@ -143,6 +152,82 @@ pub fn module(shared: Arc<Shared>) -> RpcModule<Arc<Shared>> {
 		shared.emit(Ev::Finished { tag });
 		end.done = true;
 		tag
+	})
+	.unwrap();
+	// like `hold`, but the answer is LARGE (4 MB): writing a few of them takes the send task a while
+	// and does not fit into the socket buffers unless the client reads
+	m.register_async_method("holdbig", |params, ctx, _| async move {
+		let tag = first_u64(&params);
+		let shared: Arc<Shared> = (*ctx).clone();
+		let mut end = EndGuard { shared: shared.clone(), tag, done: false };
+		let rx = {
+			let mut gates = shared.gates.lock().unwrap();
+			if shared.pre_released.lock().unwrap().remove(&tag) {
+				None
+			} else {
+				let (tx, rx) = oneshot::channel();
+				gates.insert(tag, tx);
+				Some(rx)
+			}
+		};
+		shared.note(format!("start {tag}"));
+		shared.emit(Ev::Started { tag, avail: None });
+		if let Some(rx) = rx {
+			let _ = rx.await;
+		}
+		shared.note(format!("finish {tag}"));
+		shared.emit(Ev::Finished { tag });
+		end.done = true;
+		"x".repeat(4_000_000)
+	})
+	.unwrap();
+	// a BLOCKING handler (runs on tokio's blocking pool); `holdbp` panics after it was released — for
+	// blocking methods jsonrpsee answers a panic with an internal error carrying the request's id
+	for (name, panics) in [("holdb", false), ("holdbp", true)] {
+		m.register_blocking_method(name, move |params, ctx, ext| {
+			let tag = first_u64(&params);
+			let shared: Arc<Shared> = (*ctx).clone();
+			let avail = guard_of(&shared, &ext).map(|g| g.available_connections());
+			let rx = {
+				let mut gates = shared.gates.lock().unwrap();
+				if shared.pre_released.lock().unwrap().remove(&tag) {
+					None
+				} else {
+					let (tx, rx) = oneshot::channel();
+					gates.insert(tag, tx);
+					Some(rx)
+				}
+			};
+			shared.note(format!("start {tag}"));
+			shared.emit(Ev::Started { tag, avail });
+			if let Some(rx) = rx {
+				let _ = rx.blocking_recv();
+			}
+			shared.note(format!("finish {tag}"));
+			shared.emit(Ev::Finished { tag });
+			if panics {
+				panic!("harness: handler {tag} panics on purpose");
+			}
+			tag
+		})
+		.unwrap();
+	}
+	// a chatty subscription: keeps pushing notifications through the connection's bounded writer
+	// queue (they compete with call answers for room) until the sink is closed
+	m.register_subscription("subchat", "nc", "unsubchat", |params, pending, ctx, _| async move {
+		let tag = first_u64(&params);
+		let shared: Arc<Shared> = (*ctx).clone();
+		let Ok(sink) = pending.accept().await else { return };
+		shared.emit(Ev::SubAccepted { tag });
+		for i in 0..2000u64 {
+			let msg = SubscriptionMessage::from(serde_json::value::to_raw_value(&i).unwrap());
+			if sink.send(msg).await.is_err() {
+				break;
+			}
+			tokio::task::yield_now().await;
+		}
+		shared.note(format!("subclosed {tag}"));
+		shared.emit(Ev::SubClosed { tag });
 	})
 	.unwrap();
 	m.register_subscription("sub", "n", "unsub", |params, pending, ctx, _| async move {
@@ -235,6 +320,14 @@ pub enum Assembly {
 	/// `.set_rpc_middleware(..).set_http_middleware(..)` is applied to a CLONE of it for every
 	/// accepted connection — all those per-connection builders must still share one guard
 	TowerClone,
+	/// LOW-LEVEL API: the harness plays the user of `jsonrpsee_server_low_level_api.rs`: a hand-made
+	/// `ConnectionGuard::new(max)`, `stop_channel()`, an own accept loop and a `tower::service_fn` that
+	/// takes the permit itself (429 otherwise), wraps it into `ConnectionState::new(..)` and calls
+	/// `ws::connect(..)` (the returned future is spawned) or `http::call_with_service_builder(..)`;
+	/// connections are served by `serve_with_graceful_shutdown`
+	LowLevel,
+	/// as `LowLevel`, served by `serve` (no graceful shutdown of the HTTP connection)
+	LowServe,
 }
 
 impl Assembly {
@@ -245,6 +338,8 @@ impl Assembly {
 			Assembly::TowerSet => "towerset",
 			Assembly::TowerMw => "towermw",
 			Assembly::TowerClone => "towerclone",
+			Assembly::LowLevel => "lowlevel",
+			Assembly::LowServe => "lowserve",
 		}
 	}
 	pub fn parse(s: &str) -> Option<Self> {
@@ -254,11 +349,14 @@ impl Assembly {
 			"towerset" => Some(Assembly::TowerSet),
 			"towermw" => Some(Assembly::TowerMw),
 			"towerclone" => Some(Assembly::TowerClone),
+			"lowlevel" => Some(Assembly::LowLevel),
+			"lowserve" => Some(Assembly::LowServe),
 			_ => None,
 		}
 	}
 }
 
+#[derive(Clone, Copy)]
 pub struct EnvCfg {
 	pub assembly: Assembly,
 	pub max: u32,
@@ -287,6 +385,7 @@ pub async fn start_env(cfg: &EnvCfg) -> Env {
 		pre_released: Default::default(),
 		holds: Default::default(),
 		log: Default::default(),
+		own_guard: Default::default(),
 		nonce: {
 			static NEXT: std::sync::atomic::AtomicU64 = std::sync::atomic::AtomicU64::new(1);
 			let t = std::time::SystemTime::now().duration_since(std::time::UNIX_EPOCH).map(|d| d.as_nanos() as u64).unwrap_or(0);
@@ -362,6 +461,69 @@ pub async fn start_env(cfg: &EnvCfg) -> Env {
 			accept_loop!(move |sh: jsonrpsee::server::StopHandle| {
 				shared_builder.clone().set_rpc_middleware(RpcServiceBuilder::new()).set_http_middleware(http_mw.clone()).build(methods.clone(), sh)
 			})
+		}
+		Assembly::LowLevel | Assembly::LowServe => {
+			let graceful = cfg.assembly == Assembly::LowLevel;
+			let guard = ConnectionGuard::new(cfg.max as usize);
+			*shared.own_guard.lock().unwrap() = Some(guard.clone());
+			let methods: jsonrpsee::server::Methods = methods.into();
+			let listener = TcpListener::bind("127.0.0.1:0").await.expect("bind loopback");
+			let addr = listener.local_addr().unwrap();
+			let (stop_handle, server_handle) = stop_channel();
+			let conn_id = Arc::new(std::sync::atomic::AtomicU32::new(0));
+			let (http_on, ws_on) = (cfg.http, cfg.ws);
+			let sh2 = shared.clone();
+			tokio::spawn(async move {
+				loop {
+					let sock = tokio::select! {
+						res = listener.accept() => match res { Ok((s, _)) => s, Err(_) => continue },
+						_ = stop_handle.clone().shutdown() => break,
+					};
+					let _ = sock.set_nodelay(true);
+					let (guard, methods, scfg, stop_handle2, conn_id, shared) = (guard.clone(), methods.clone(), scfg.clone(), stop_handle.clone(), conn_id.clone(), sh2.clone());
+					let svc = tower::service_fn(move |req: HttpRequest<hyper::body::Incoming>| {
+						let (guard, methods, scfg, stop_handle, conn_id, shared) = (guard.clone(), methods.clone(), scfg.clone(), stop_handle2.clone(), conn_id.clone(), shared.clone());
+						async move {
+							// "jsonrpsee expects a conn permit for each connection"
+							let Some(permit) = guard.try_acquire() else {
+								return Ok::<_, BoxError>(jsonrpsee::server::http::response::too_many_requests());
+							};
+							let id = conn_id.fetch_add(1, std::sync::atomic::Ordering::Relaxed);
+							let conn = ConnectionState::new(stop_handle, id, permit);
+							let is_upgrade = jsonrpsee::server::ws::is_upgrade_request(&req);
+							if is_upgrade && ws_on {
+								let hold = req.headers().get("x-hold").and_then(|v| v.to_str().ok()).and_then(|s| s.parse::<u64>().ok());
+								match jsonrpsee::server::ws::connect(req, scfg, methods, conn, RpcServiceBuilder::new()).await {
+									Ok((rp, conn_fut)) => {
+										tokio::spawn(conn_fut);
+										if let Some(tag) = hold {
+											let (tx, rx) = oneshot::channel();
+											shared.holds.lock().unwrap().insert(tag, tx);
+											shared.emit(Ev::Held { tag });
+											if let Ok(false) = rx.await {
+												// the 101 never leaves: the service fails, hyper ends the connection without upgrading
+												return Err("harness service: upgrade answer dropped".into());
+											}
+										}
+										Ok(rp)
+									}
+									Err(rp) => Ok(rp),
+								}
+							} else if !is_upgrade && http_on {
+								Ok(jsonrpsee::server::http::call_with_service_builder(req, scfg, conn, methods, RpcServiceBuilder::new()).await)
+							} else {
+								Ok(jsonrpsee::server::http::response::denied())
+							}
+						}
+					});
+					if graceful {
+						tokio::spawn(serve_with_graceful_shutdown(sock, svc, stop_handle.clone().shutdown()));
+					} else {
+						tokio::spawn(jsonrpsee::server::serve(sock, svc));
+					}
+				}
+			});
+			(addr, server_handle)
 		}
 	};
 	Env { addr, handle: Some(handle), shared, ev_rx, backlog: VecDeque::new(), guard: None, max: cfg.max }
@@ -690,6 +852,17 @@ pub fn ws_frame(opcode: u8, payload: &[u8]) -> Vec<u8> {
 	f
 }
 
+/// ids of a reply without parsing a possibly huge payload: `{"jsonrpc":"2.0","id":<n>,…` is how
+/// jsonrpsee writes single answers
+pub fn reply_ids_fast(body: &[u8]) -> Vec<u64> {
+	const P: &[u8] = b"{\"jsonrpc\":\"2.0\",\"id\":";
+	if body.len() > 100_000 && body.starts_with(P) {
+		let digits: Vec<u8> = body[P.len()..].iter().copied().take_while(|b| b.is_ascii_digit()).collect();
+		return String::from_utf8(digits).ok().and_then(|d| d.parse().ok()).into_iter().collect();
+	}
+	reply_ids(body)
+}
+
 /// `id` member of a JSON-RPC reply as u64, if any.
 pub fn reply_id(body: &[u8]) -> Option<u64> {
 	let v: serde_json::Value = serde_json::from_slice(body).ok()?;
@@ -707,6 +880,51 @@ pub fn post_request(body: &str) -> Vec<u8> {
 		body
 	)
 	.into_bytes()
+}
+
+/// as `post_request`, asking the server to close the connection after the answer (HTTP/1.0 style)
+pub fn post_request_close(body: &str) -> Vec<u8> {
+	format!(
+		"POST / HTTP/1.1\r\nHost: localhost\r\nConnection: close\r\nContent-Type: application/json\r\nContent-Length: {}\r\n\r\n{}",
+		body.len(),
+		body
+	)
+	.into_bytes()
+}
+
+/// An upgrade request that soketto's `receive_request` must refuse; `variant` selects what is wrong
+/// (0: unsupported version, 1: no `Sec-WebSocket-Key`, 2: key of the wrong length).
+pub fn bad_upgrade_request(hold: Option<u64>, variant: u64) -> Vec<u8> {
+	let mut s = String::from("GET / HTTP/1.1\r\nHost: localhost\r\nUpgrade: websocket\r\nConnection: Upgrade\r\n");
+	match variant % 3 {
+		0 => s.push_str("Sec-WebSocket-Key: dGhlIHNhbXBsZSBub25jZQ==\r\nSec-WebSocket-Version: 12\r\n"),
+		1 => s.push_str("Sec-WebSocket-Version: 13\r\n"),
+		_ => s.push_str("Sec-WebSocket-Key: c2hvcnQ=\r\nSec-WebSocket-Version: 13\r\n"),
+	}
+	if let Some(t) = hold {
+		s.push_str(&format!("x-hold: {t}\r\n"));
+	}
+	s.push_str("\r\n");
+	s.into_bytes()
+}
+
+/// `result` of the entry with id `id` in a batch reply, or of a single reply with that id
+pub fn result_of(body: &[u8], id: u64) -> Option<u64> {
+	let v: serde_json::Value = serde_json::from_slice(body).ok()?;
+	let one = |e: &serde_json::Value| if e.get("id")?.as_u64()? == id { e.get("result")?.as_u64() } else { None };
+	match &v {
+		serde_json::Value::Array(a) => a.iter().find_map(one),
+		e => one(e),
+	}
+}
+
+/// ids of all entries of a (single or batch) reply
+pub fn reply_ids(body: &[u8]) -> Vec<u64> {
+	match serde_json::from_slice::<serde_json::Value>(body) {
+		Ok(serde_json::Value::Array(a)) => a.iter().filter_map(|e| e.get("id")?.as_u64()).collect(),
+		Ok(e) => e.get("id").and_then(|i| i.as_u64()).into_iter().collect(),
+		Err(_) => vec![],
+	}
 }
 
 pub fn call_json(id: u64, method: &str, tag: u64) -> String {
